@@ -152,6 +152,34 @@ def f2(a1: int256) -> int256:
         self.s2 = (-self.s2) - a1
     return self.s2
 """, [("f1(uint256)", [5]), ("f1(uint256)", [0]), ("f2(int256)", [7]), ("f2(int256)", [2**256 - 3])]),
+    # a callee that never returns (932abac: invoke arity), arguments read at evaluation time (d038d61)
+    ("""
+x: uint256
+
+@internal
+def _never(p: uint256) -> uint256:
+    raise "no"
+
+@internal
+def wr() -> uint256:
+    self.x = 9
+    return 1
+
+@internal
+def h(a: uint256, b: uint256) -> uint256:
+    return a * 10 + b
+
+@external
+def g(p: uint256) -> uint256:
+    if p > 3:
+        return self._never(p)
+    return p
+
+@external
+def go() -> uint256:
+    self.x = 5
+    return self.h(self.x, self.wr())
+""", [("g(uint256)", [2]), ("g(uint256)", [7]), ("go()", [])]),
 ]
 
 
@@ -176,6 +204,8 @@ def gen_call_family(rnd, nfun=6):
         terms = []
         for kind, i in params:
             wgt = 3 * i + 2
+            if rnd.random() < 0.2:
+                continue            # an unused parameter (dead at function entry: the prologue must pop it)
             if kind == "w":
                 terms.append(f"unsafe_mul(p{i}, {wgt})")
             elif kind == "s":
